@@ -143,6 +143,13 @@ def round_sorts() -> bool:
     loop = loops[0]
     if fn.body[-1] is not loop or len(loop.body) != 1 or not isinstance(loop.body[0], ast.Assign):
         raise Unavailable("run_connection_attempts: recording loop has an unexpected shape")
+    # the loop is reached on every path: nothing before it returns (a batch in which no search finds anything is
+    # still a batch that was attempted)
+    for st in fn.body[:-1]:
+        for n in ast.walk(st):
+            if isinstance(n, ast.Return):
+                raise Unavailable("run_connection_attempts: a `return` before the recording loop — the attempted pairs "
+                                  "are not recorded on every path")
     a = loop.body[0]
     var = ast.unparse(loop.target)
     if ast.unparse(a.targets[0]) != "self.ktn.pairlist" or not isinstance(a.value, ast.Call) or \
